@@ -217,6 +217,32 @@ func TestProp(t *testing.T) {
 			}
 		}
 	}
+	// a box handed to a callback that is the last thing in the stream (nothing behind it): the bytes that arrive together with
+	// io.EOF are the end of its payload; read by a consumer with a large buffer (BMFFRaw) and by the library's own (BMFF)
+	{
+		for _, n := range []int{1, 100, 4095, 4096, 4097, 9000, 20000} {
+			payload := make([]byte, n)
+			for i := range payload {
+				payload[i] = byte('a' + i%23)
+			}
+			xp := &gen.Box{Type: "uuid", Data: append(append([]byte{}, gen.UUIDXPacket...), payload...)}
+			canon := &gen.Box{Type: "uuid", Data: append([]byte{}, gen.UUIDCanon...), Kids: []*gen.Box{{Type: "CNCV", Data: make([]byte, 30)}}}
+			var file []byte
+			for _, b := range []*gen.Box{gen.Ftyp("crx ", 1, "crx ", "isom"), {Type: "moov", Kids: []*gen.Box{canon}}, xp} {
+				file = append(file, b.Serialise(len(file))...)
+			}
+			for _, entry := range []string{"BMFFRaw", "BMFF"} {
+				for _, ch := range [][]int{{1}, {512}, {4096}, {4096, 1}, {1 << 20}} {
+					c := Case{Entry: entry, Input: file, Chunks: ch, DataEOF: true, Origin: "callback-box-at-end-of-stream"}
+					if f := eval(c); f != nil {
+						if pbt.Report(t, rec, chk.Name, c, f) {
+							return
+						}
+					}
+				}
+			}
+		}
+	}
 	pbt.Run(t, rec, chk, rec.Env.Pick(5000, 150000), 1)
 }
 
